@@ -87,9 +87,98 @@ func runC19(rc *RunCtx) *simkit.Violation {
 			return nil, nil
 		}))
 	}
+	// a reader listing while the appends are in flight, through ONE log value, often repeating the same (from, max):
+	// each listing is a single store call, so its result must be the log as it was at some instant between the
+	// listing's invocation and its return
+	type liveList struct {
+		from        string
+		max         int
+		invoke, ret int
+		got         []string
+		err         error
+	}
+	var lives []*liveList
+	if t.Bool(2, 3) {
+		lr := w.Client("live-reader")
+		now := time.Now()
+		nl := t.Range(2, 5)
+		type plan struct {
+			from  string
+			max   int
+			pause int
+		}
+		var plans []plan
+		for j := 0; j < nl; j++ {
+			if j > 0 && t.Bool(1, 2) {
+				pl := plans[t.Choose(len(plans))]
+				pl.pause = t.Pick(0, 200, 700, 1500)
+				plans = append(plans, pl)
+				continue
+			}
+			part := t.Bytes(16)
+			k, _ := ksuid.FromParts(now.Add(2*walExpiration()+time.Duration(t.Range(-1, 3))*time.Second), part)
+			plans = append(plans, plan{from: k.String(), max: t.Pick(1, 1, 2, 2, 3, 1000), pause: t.Pick(0, 200, 700, 1500)})
+		}
+		w.Go(lr, "live-list", func() (interface{}, error) {
+			l := wal.New(lr.Store(w.Bucket("mutable-live")), lr.Store(walB), wal.Logger(nopLog))
+			for _, pl := range plans {
+				time.Sleep(time.Duration(pl.pause) * time.Millisecond)
+				ll := &liveList{from: pl.from, max: pl.max, invoke: w.SeqNow()}
+				ll.got, _, ll.err = l.ListTokens(bg, pl.from, pl.max)
+				ll.ret = w.SeqNow()
+				lives = append(lives, ll)
+			}
+			return nil, nil
+		})
+	}
 	if v := w.Run(); v != nil {
 		v.Property = prop
 		return v
+	}
+	if len(lives) > 0 {
+		type landed struct {
+			key string
+			seq int
+		}
+		var lands []landed
+		for _, ev := range w.History {
+			if ev.Bucket == walB.Name && ev.Landed && (ev.Op == simkit.OpPut || ev.Op == simkit.OpPutExcl) {
+				lands = append(lands, landed{ev.Key, ev.Seq})
+			}
+		}
+		for _, ll := range lives {
+			if ll.err != nil {
+				return Viol(prop, "list-failed", "ListTokens-live", ll.from, "ListTokens(%s, %d) during appends failed: %v", ll.from, ll.max, ll.err)
+			}
+			fk, _ := ksuid.Parse(ll.from)
+			start, _ := ksuid.FromParts(fk.Time().Add(-2*walExpiration()), make([]byte, 16))
+			wantAt := func(seq int) []string {
+				var ks []string
+				for _, l := range lands {
+					if l.seq <= seq && l.key >= start.String() {
+						ks = append(ks, l.key)
+					}
+				}
+				sort.Strings(ks)
+				if len(ks) > ll.max {
+					ks = ks[:ll.max]
+				}
+				return ks
+			}
+			ok := false
+			var last []string
+			for e := ll.invoke - 1; e <= ll.ret+1 && !ok; e++ {
+				last = wantAt(e)
+				ok = strings.Join(last, ",") == strings.Join(ll.got, ",")
+			}
+			if !ok {
+				return Viol(prop, "list-tokens-wrong", "ListTokens-live", ll.from, "ListTokens(from %s, max %d) issued while appends were in flight (events %d..%d) returned %v, which is the look-back window at no instant of that interval (at its end: %v)", ll.from, ll.max, ll.invoke, ll.ret, tails(ll.got), tails(last))
+			}
+			if len(ll.got) == ll.max {
+				w.Probe("live-listing-full-page")
+			}
+		}
+		w.Probe("live-listings")
 	}
 	var all []*walAdd
 	for c, tk := range tasks {
